@@ -31,7 +31,7 @@ TEMPLATES = [
     "[%s %s %s]", "#{%s %s}", "#(%s %s %s)", "{%s %s %s %s}", "(%s %s %s)", "(f %s :k %s %s)", "(.m %s %s %s)", "(get %s %s %s)",
     "(cut %s %s %s %s)", "(+ %s %s %s)", "(- %s %s)", "(* %s %s %s)", "(** %s %s %s)", "(%% %s %s)", "(@ %s %s)", "(<< %s %s %s)",
     "(& %s %s)", "(| %s %s %s)", "(^ %s %s)", "(bnot %s)", "(not %s)", "(and %s %s %s)", "(or %s %s %s)", "(= %s %s %s)",
-    "(< %s %s %s)", "(!= %s %s)", "(is %s %s)", "(in %s %s)", "(not-in %s %s)", "(chainc %s < %s <= %s)", "(if %s %s %s)",
+    "(< %s %s %s)", "(= %s)", "(< %s)", "(is %s)", "(!= %s %s)", "(is %s %s)", "(in %s %s)", "(not-in %s %s)", "(chainc %s < %s <= %s)", "(if %s %s %s)",
     "(do %s %s %s)", "(setv a %s)", "(setv a %s b %s)", "(setx a %s)", "(setv (get %s %s) %s)", "(+= a %s %s)", "(print f\"{%s} {%s !r}\")",
     "(print f\"{%s :{%s}}\")", "(while %s %s (else %s))", "(for [a %s] %s)", "(lfor a %s :if %s %s)", "(dfor a %s %s %s)",
     "(gfor a %s :setv b %s %s)", "(sfor a %s b %s :do %s %s)", "(with [a %s] %s)", "(with [%s] %s)", "(try %s (except [e %s] %s) (else %s) (finally %s))",
@@ -146,7 +146,15 @@ def slot_oracle(chk, rng, rounds):
                 leaves.append(v)
                 call = "(%s)" % v          # a call: its evaluation is observable, so it may never be dropped
                 if i == special:
-                    fills.append(rng.choice(["#* " + call, "#** " + call, "(do (setv zz 1) %s)" % call]))
+                    # unpacking forms, statement-producing forms, and unpacking OF statement-producing forms
+                    multi = "(if (%sa) (do (%sb) (%sc)) (%sd))" % (v, v, v, v)
+                    choice = rng.choice(["#* " + call, "#** " + call, "(do (setv zz 1) %s)" % call,
+                                         "#* (do (setv zz 1) %s)" % call, "#** (do (setv zz 1) %s)" % call,
+                                         "#** " + multi, "#* " + multi, multi])
+                    if multi in choice:
+                        leaves.pop()
+                        leaves.extend([v + "a", v + "b", v + "c", v + "d"])
+                    fills.append(choice)
                 else:
                     fills.append(call)
             src = tpl % tuple(fills)
@@ -162,7 +170,7 @@ def slot_oracle(chk, rng, rounds):
                 if tpl.startswith("(quasiquote"):
                     missing = [v for v in missing]
                 if missing:
-                    chk.fail("subform-dropped", {"program": src, "missing": missing},
+                    chk.fail("unary-comparison-operand-dropped" if tpl in ("(= %s)", "(< %s)", "(is %s)") else "subform-dropped", {"program": src, "missing": missing},
                              "compiled code never mentions %s: %s" % (missing, ast.unparse(r[1])[:160]),
                              "every evaluated subform appears in the compiled code, or a Hy error",
                              "hy_compile(hy.read_many(src)); ast.walk Names")
@@ -183,6 +191,7 @@ def bare_name_probe(chk):
 
 def run(chk):
     chk.matchers["bare-name-after-statements"] = lambda rec, params: rec["key"] == "bare-name-dropped"
+    chk.matchers["unary-comparison"] = lambda rec, params: rec["key"] == "unary-comparison-operand-dropped"
     chk.trusted = TRUSTED
     chk.assumptions = ["an evaluated subform is observed as a call (vN) of a uniquely named function: vN must occur as a Name in the compiled AST"]
     chk.prove("Props/C11.v", ["Props/C11.vo"], [])
